@@ -30,13 +30,13 @@ CHECKS = {
 
 CHECKS.update({
     "C06": ("exploration", "stateful property testing (proptest); history invariant over the directory listing, with file-of-origin tracked independently from the I/O trace",
-            "After every truncate / delete_queue / open of generated multi-queue histories the directory listing is compared with an independently computed bound (oldest file any retained record was appended into, file current at call begin); contiguity, ending at the writer's file and disk_used_bytes are checked too.",
+            "After every truncate / delete_queue / open of generated multi-queue histories the directory listing is compared with an independently computed bound (oldest file any retained record was appended into, file current at call begin); contiguity, ending at the writer's file and disk_used_bytes are checked too. The same audit runs after the open that recovers from a crash at enumerated crash points inside roll-over calls (this found D7, recorded as known finding continuation-only-file-kept-after-crash).",
             "Trusted: the I/O trace's notion of 'current file'; premature deletion is left to C01.", "9/C06"),
     "C14": ("exploration", "differential property testing (proptest): same concrete history under all 9 persist policies in lock-step",
             "The same generated call sequence is executed under every policy (the reference policy twice, as a determinism guard); outcomes, full observable states and disk_used_bytes are compared after every call and after a final restart against the Always(Flush) run.",
             "Trusted: OnDelay exercised at 0, 1 us and 1 h; wall clock not controlled.", "9/C14"),
     "C17": ("exploration", "stateful property testing (proptest) with generated foreign directory entries + metamorphic renumbering",
-            "Generated sets of near-miss names, directories and symlinks (each holding a valid WAL image for a phantom queue) are placed in the directory before opens; after histories with roll-over and GC they must be untouched and never read, all names the library touches must be wal-<20 digits>, and an order-preserving renumbering with gaps must recover the same state and continue at max+1.",
+            "Generated sets of near-miss names, directories, symlinks and unix sockets (each holding a valid WAL image for a phantom queue) are placed in the directory before opens; after histories with roll-over and GC they must be untouched and never read, all names the library touches must be wal-<20 digits>, and an order-preserving renumbering with gaps must recover the same state and continue at max+1.",
             "Trusted: hook events for create/open/unlink names; WAL-shaped foreign names kept out of the writer's reach.", "9/C17"),
     "C18": ("exploration", "metamorphic property testing (proptest): history vs. per-queue projection, no reference model",
             "For every queue of a generated multi-queue history the projected history is re-executed in a fresh directory and the queue's outcomes and observable content are compared at every projected call; additionally a call addressed to one queue must not change what any other queue returns.",
@@ -51,10 +51,10 @@ CHECKS.update({
             "For every policy family and generated histories with explicit persist calls, each effect boundary (and byte cuts, for process crashes) is turned into the image left by a process crash (buffer lost) or by a power loss (adversarial: all unsynced bytes lost and all unlinks applied; mixed: generated prefixes), and the recovered state must be at least as recent as the last call whose return guarantees persistence under that model.",
             "Trusted: the power-loss model (per-file fdatasync, dir fsync for names, ordered name-space durability), which calls count as persistence points; S_P is the state the live log showed.", "9/C03"),
     "C04": ("fault_enumeration", "stateful property testing (proptest) with a model-free history invariant + crash-point enumeration with probe appends",
-            "Watermark invariant (highest position assigned or truncated-to per queue incarnation) computed from real outcomes only, checked on every call/restart of generated histories with idle emptied queues and busy GC-ing queues, and on every enumerated crash image by probing last_position, retry, past and automatic appends on every surviving queue.",
+            "Watermark invariant (highest position assigned or truncated-to per queue incarnation) computed from real outcomes only, checked on every call/restart of generated histories with idle emptied queues and busy GC-ing queues, and on every enumerated crash image by probing last_position, retry, past and automatic appends on every surviving queue (at every other crash point after one more restart with no call in between), followed by a further restart.",
             "Trusted: process-crash model as C02.", "9/C04"),
     "C08": ("fault_enumeration", "generated in-place damage (aimed at frame fields + unaimed) on WAL images of generated histories; membership oracle against everything ever appended; separate decoy campaign",
-            "12 damaged images per generated history, 1..4 in-place damage operations each; a successful open may only return records that were appended. The one known way to defeat this (payload embedding a CRC-valid frame + len overwrite) is isolated in a counted decoy campaign and recorded as known finding decoy-resync.",
+            "12 damaged images per generated history, 1..4 in-place damage operations each; a successful open may only return records that were appended. The one known way to defeat this (payload embedding a CRC-valid frame + len overwrite) is isolated in a counted decoy campaign and recorded as known finding decoy-resync; further fixed campaigns: re-typed Last frame, orphan tail after GC, zero-filled Last frame followed by an entry of exactly the lost size.",
             "Trusted: 'up to a CRC-32 collision'; frame layout from hook write events.", "9/C08"),
     "C09": ("fault_enumeration", "single-frame payload/CRC damage enumerated over every frame of the WAL image of generated histories; loss oracle against the reference model",
             "Every frame present in the final image of each generated history is damaged in turn (payload or CRC bytes only); open must succeed and every retained record not written by the damaged entry must be recovered intact.",
@@ -66,7 +66,7 @@ CHECKS.update({
 
 CHECKS.update({
     "C07": ("exploration", "enumerated boundary grid + generated sequences through the record layer in memory (round-trip oracle), and generated aimed-alignment histories through files (reference-model oracle after restart)",
-            "A dense grid of (in-block start offset, entry length, follower) around every block-boundary case is enumerated exhaustively through RecordWriter/RecordReader over in-memory blocks, with identity as oracle; generated append histories with lengths aimed at block ends, file ends and the 7-bytes-left case exercise the same alignments through real WAL files of 128 KiB, including entries spanning three files.",
+            "A dense grid of (in-block start offset, entry length, follower) around every block-boundary case is enumerated exhaustively through RecordWriter/RecordReader over in-memory blocks, with identity as oracle; generated append histories with lengths aimed at block ends, file ends and the 7-bytes-left case exercise the same alignments through real WAL files of 128 KiB, including entries spanning three files. Grid cells are repeated in a log that begins with a dangling First frame or with the orphan tail of an entry whose head is gone, and 96 cells carry entries crafted so that the frame checksum field is 0, 1, 0xFFFFFFFF, ...",
             "Trusted: the grid is a finite sub-space (labelled as such); in-memory route uses the harness' BlockWrite/BlockRead.", "9/C07"),
     "C10": ("fault_enumeration", "generated damage sequences of all kinds (in-place, structural, crafted CRC-valid frames) on WAL images of generated histories; crash oracle (no panic, bounded block loads, capped memory, watchdog)",
             "10 damaged directories per generated history, 1..8 damage operations each, including crafted frames with correct CRCs carrying hostile entry bytes; open must return, and every read accessor of a returned log must run, without panic; block loads are bounded by the directory size; address space is capped and a per-case watchdog with isolated confirmation turns hangs into violations.",
